@@ -77,6 +77,12 @@ func buildWorkload(k *mon.Case, dir string, recoveryFamily bool) (*Workload, int
 			cfg.Prune = uint64([]int{8192, 16384}[r.Intn(2)])
 		}
 	}
+	pruneHeavy := r.Chance(1, 5)
+	if pruneHeavy {
+		// many small block files and a prune target of four of them under a utxo cache that is only flushed when it has
+		// to be: the flush marker stays where the last forced flush put it, and later prunes reach across that point
+		cfg.UtxoCache, cfg.MaxBlockFileSize, cfg.Prune = 1<<25, 2048, 8192
+	}
 	if recoveryFamily {
 		// the utxo cache is (almost) never flushed while the workload runs, so the consistency marker stays far
 		// behind the tip and recovery has many blocks to replay
@@ -126,9 +132,16 @@ func buildWorkload(k *mon.Case, dir string, recoveryFamily bool) (*Workload, int
 	}
 	// base chain
 	tip := g.Tree.Genesis
-	for i := 0; i < 9+r.Intn(5); i++ {
+	nBase := 9 + r.Intn(5)
+	if pruneHeavy {
+		nBase += 25 + r.Intn(20)
+	}
+	for i := 0; i < nBase; i++ {
 		tip = g.Block(r, tip, chaingen.BlockOpts{NTx: -1, Easy: r.Bool()})
 		deliver(tip)
+	}
+	if pruneHeavy {
+		k.Count("reference.prune_heavy_configs", 1)
 	}
 	nops := 10 + r.Intn(18)
 	if k.C.Thorough() {
@@ -245,7 +258,21 @@ func runCase(k *mon.Case) {
 	if n := len(opEnd); n >= 4 && n == len(w.Ops) {
 		tail = opEnd[n-4]
 	}
+	// with pruning: a third of the points fall right behind the deletion of a block file
+	var deletions []int
+	for i, kd := range kinds {
+		if kd == "blk-delete" {
+			deletions = append(deletions, i+1)
+		}
+	}
 	for tries := 0; len(pts) < npoints && len(pts) < E && tries < 10*npoints; tries++ {
+		if len(deletions) > 0 && len(pts)%3 == 2 {
+			if p := deletions[r.Intn(len(deletions))] + 1 + r.Intn(10); p <= E {
+				pts[p] = true
+				k.Count("crash.points_right_after_a_file_deletion", 1)
+			}
+			continue
+		}
 		if tail > 0 && tail < E && len(pts)%2 == 1 {
 			pts[tail+1+r.Intn(E-tail)] = true
 		} else {
